@@ -358,7 +358,34 @@ class _Progress:
                     return "IMP+"
         if isinstance(t, ast.Call) and isinstance(t.func, ast.Attribute) and t.func.attr in _CHAR_PREDICATES and self._char_source(t.func.value, st):
             return "IMP+"  # "".isdigit() is False
+        if isinstance(t, ast.Call) and isinstance(t.func, ast.Name) and len(t.args) == 1 and not t.keywords and self._char_source(t.args[0], st) and self._predicate_needs_a_character(t.func.id):
+            return "IMP+"  # a module-level character predicate that is false for "" (len(ch) == 1 and ...)
         return None
+
+    def _module_function(self, name: str) -> bool:
+        """A module-level function of the repository: it has no access to the scanner, so it cannot move it."""
+        mod = next(iter(self.methods.values())).module if self.methods else None
+        return mod is not None and self.ctx.tree.resolve_function_name(mod, name) is not None
+
+    def _predicate_needs_a_character(self, name: str) -> bool:
+        cache = self.__dict__.setdefault("_pred_cache", {})
+        if name in cache:
+            return cache[name]
+        ok = False
+        mod = next(iter(self.methods.values())).module if self.methods else None
+        g = self.ctx.tree.resolve_function_name(mod, name) if mod is not None else None
+        if g is not None and not isinstance(g.node, ast.Lambda) and len(g.params()) == 1:
+            p = g.params()[0]
+            body = [x for x in g.body() if not (isinstance(x, ast.Expr) and isinstance(x.value, ast.Constant))]
+            if len(body) == 1 and isinstance(body[0], ast.Return) and body[0].value is not None:
+                v = body[0].value
+                conj = v.values if isinstance(v, ast.BoolOp) and isinstance(v.op, ast.And) else [v]
+                for c in conj:
+                    txt = norm(c)
+                    if txt in (f"len({p}) == 1", p, f"{p} != ''", f"len({p}) > 0", f"bool({p})"):
+                        ok = True
+        cache[name] = ok
+        return ok
 
     def _is_str_valued(self, e: ast.AST) -> bool:
         if isinstance(e, ast.Constant):
@@ -377,7 +404,7 @@ class _Progress:
         if not found:
             # another side-effect-free test of the scanner state (`self._peek().isdigit()`): an opaque literal
             calls = [n for n in ast.walk(t) if isinstance(n, ast.Call)]
-            pure = all((self._self_method(c) and self._self_method(c) not in self.may_consume) or (isinstance(c.func, ast.Attribute) and c.func.attr in _CHAR_PREDICATES) or norm(c.func) == "len" for c in calls)
+            pure = all((self._self_method(c) and self._self_method(c) not in self.may_consume) or (isinstance(c.func, ast.Attribute) and c.func.attr in _CHAR_PREDICATES) or norm(c.func) == "len" or (isinstance(c.func, ast.Name) and self._module_function(c.func.id)) for c in calls)
             if pure and any(self._self_method(c) for c in calls) and not isinstance(t, (ast.BoolOp, ast.IfExp)):
                 return (ast.unparse(t), True)
             return None
